@@ -164,7 +164,7 @@ def id_sets(ctx):
     sets += [tuple(c + 60 * k for k in range(5)), tuple(c + 60 * k for k in range(4)), (0, 5, 0x100)]
     # model evaluation cost (vm_compute) is dominated by failing magic searches: ~10-20 s CPU per set above ~10 ids
     if ctx.tier == "quick":
-        sizes = list(range(1, 10)) * 2 + [11, 14, rnd.randrange(15, 30), rnd.randrange(30, 60), rnd.randrange(60, 80), 80]
+        sizes = list(range(1, 9)) * 2 + [9, 12, rnd.randrange(15, 30), rnd.randrange(30, 60), rnd.randrange(60, 81)]
     else:
         sizes = list(range(1, 10)) * 6 + list(range(10, 81, 2)) + [80]
     for n in sizes:
